@@ -1411,8 +1411,12 @@ fn gen_slice_items(rng: &mut Rng, shape: &[usize]) -> Vec<SI> {
                 SI::Rng(spell(rng, a), None)
             }
             4 => {
-                let a = pos(rng);
-                SI::Neg(a, if rng.chance(1, 2) { None } else { Some(pos(rng)) })
+                // step -1 is always rejected by slice_layout; its resolution (offset_from_end,
+                // which computes `-index - 1`) is C09's subject, so no isize::MIN endpoints here:
+                // overflow-checks builds panic on them instead of returning the error
+                let lim = 1isize << 20;
+                let a = pos(rng).clamp(-lim, lim);
+                SI::Neg(a, if rng.chance(1, 2) { None } else { Some(pos(rng).clamp(-lim, lim)) })
             }
             5 | 6 | 7 => {
                 // reversed or empty, in bounds
